@@ -465,6 +465,56 @@ func (g *gen) genPkt(n int) {
 	}
 }
 
+// CONNECTs whose will message carries fields a will cannot transmit (topic alias, subscription
+// identifiers, packet identifier, DUP): constructible through the API, outside the round-trip
+// domain; what is written must still be a valid frame (`wf=s`: structure only, the untransmitted
+// will fields are not compared)
+func (g *gen) genWillX(n int) {
+	for c := 0; c < n; c++ {
+		g.emit("RESET")
+		g.emit("NOTE case=willx kind=Connect wf=s")
+		g.emit("NEW p Connect")
+		g.willMessage("pw")
+		k := 0
+		for k == 0 {
+			if g.chance(0.5) {
+				g.emit("SET pw SetTopicAlias %d", 1+g.r.Intn(65535))
+				k++
+			}
+			if g.chance(0.4) {
+				for j := 1 + g.r.Intn(3); j > 0; j-- {
+					g.emit("SET pw AddSubscriptionID %d", g.subID())
+				}
+				k++
+			}
+			if g.chance(0.2) {
+				g.emit("SET pw SetPacketID %d", 1+g.r.Intn(65535))
+				k++
+			}
+			if g.chance(0.2) {
+				g.emit("SET pw SetDuplicate true")
+				k++
+			}
+		}
+		g.emit("SET p SetWill pw")
+		if g.chance(0.5) {
+			g.emit("SET p SetWillDelayInterval %d", g.u32())
+		}
+		density := []float64{0.15, 0.5, 0.9}[g.r.Intn(3)]
+		ss := setters["Connect"]
+		for _, i := range g.r.Perm(len(ss)) {
+			if ss[i].name == "SetProtocolName" || ss[i].name == "SetProtocolVersion" || !g.chance(density) {
+				continue
+			}
+			g.emit("SET p %s %s", ss[i].name, ss[i].args(g))
+		}
+		g.emit("VIEW p")
+		g.emit("ENC p")
+		g.emit("STR p")
+		g.emit("WR p accept=all err=0")
+	}
+}
+
 func (g *gen) genHist(n int) {
 	for c := 0; c < n; c++ {
 		kind := apiKinds[g.r.Intn(len(apiKinds))]
@@ -576,6 +626,8 @@ func runGen(class string, seed int64, n int, w *bufio.Writer) {
 		g.genRewrite(n)
 	case "shared":
 		g.genShared(n)
+	case "willx":
+		g.genWillX(n)
 	case "hist":
 		g.genHist(n)
 	case "odd":
